@@ -144,17 +144,6 @@ fn c03_win_p4_mtu_const() {
 }
 #[kani::proof]
 #[kani::unwind(7)]
-fn c03_win_p5_mtu_sym_or_value() {
-    let (w, mss, hdr): (u16, u16, u16) = (kani::any(), kani::any(), kani::any());
-    let ts: bool = kani::any();
-    let ver = any_ver();
-    kani::assume(!w_small(w, mss) && !w_c1(w, mss) && !w_c2(w, mss, ts) && w_mod(w).is_none());
-    kani::assume(w_const_mtu(w, ts, &ver).is_none());
-    let expect = match w_sym_mtu(w, mss, hdr, &ver) { Some(q) => WindowSize::Mtu(q), None => WindowSize::Value(w) };
-    assert!(detect_win_multiplicator(w, mss, hdr, ts, &ver) == expect);
-}
-#[kani::proof]
-#[kani::unwind(7)]
 fn c03_win_canary() {
     let w: u16 = kani::any();
     let mss: u16 = kani::any();
@@ -405,32 +394,17 @@ fn c03_mtu_only_on_syn() {
     assert!(crate::mtu::extract_from_ipv4(&tcp, 5, kani::any()).is_none());
     assert!(crate::mtu::extract_from_ipv6(&tcp, 40, kani::any()).is_none());
 }
-// Soundness of the classification without re-deriving the priority (multiplications only, cheap):
+// the multiplier of an MSS / MTU multiple must fit the u8 of the signature language: 256 x MSS is
+// not an MSS multiple form (it is a multiple of 256, hence a modulus form)
 #[kani::proof]
 #[kani::unwind(7)]
-fn c03_win_sound() {
-    let (w, mss, hdr): (u16, u16, u16) = (kani::any(), kani::any(), kani::any());
-    let ts: bool = kani::any();
+fn c03_win_multiplier_256() {
+    let mss: u16 = kani::any();
+    kani::assume(mss >= 100 && mss <= 255);
+    let w = mss * 256;
     let ver = any_ver();
-    let min_hdr: u32 = if ver == IpVersion::V4 { 40 } else { 60 };
-    match detect_win_multiplicator(w, mss, hdr, ts, &ver) {
-        WindowSize::Mss(k) => {
-            let k = k as u32;
-            assert!(k * mss as u32 == w as u32 || (ts && mss > 12 && k * (mss as u32 - 12) == w as u32));
-        }
-        WindowSize::Mod(m) => {
-            assert!(m == 256 || m == 512 || m == 1024 || m == 2048 || m == 4096);
-            assert!(w % m == 0 && (m == 4096 || w % (2 * m) != 0));
-        }
-        WindowSize::Mtu(k) => {
-            let k = k as u32;
-            let c4 = if hdr > 0 { mss.saturating_add(hdr) } else { mss.saturating_add(min_hdr as u16) } as u32;
-            assert!(k * 1500 == w as u32 || k * (1500 - min_hdr) == w as u32
-                || (ts && k * (1500 - min_hdr - 12) == w as u32) || k * c4 == w as u32);
-        }
-        WindowSize::Value(v) => assert!(v == w),
-        WindowSize::Any => assert!(false),
-    }
+    let r = detect_win_multiplicator(w, mss, kani::any(), kani::any(), &ver);
+    assert!(r == WindowSize::Mod(w_mod(w).unwrap()));
 }
 
 // ---------------------------------------------------------------- IP-header quirks (process_tcp_ipv4 / ipv6)
